@@ -54,6 +54,13 @@ def gen(rng, **kw):
     is what weight / evidence propagation over the constraint looks at), and half of those disjunctions are made to sum
     to exactly 1 (no "none of the heads" member)."""
     P = spine.gen_program(rng, **kw)
+    if rng.random() < 0.25:
+        # probabilities close to (but not) 1 and 0: weight propagation must not round them
+        from fractions import Fraction as F
+        idx = [i for i, st in enumerate(P["stmts"]) if st[0] == "pf"]
+        rng.shuffle(idx)
+        for i in idx[:rng.randint(1, 2)]:
+            P["stmts"][i] = ("pf", rng.choice([F(199, 200), F(999, 1000), F(1, 200), F(995, 1000)]), P["stmts"][i][2])
     ads = [i for i, st in enumerate(P["stmts"]) if st[0] == "ad"]
     if ads and rng.random() < 0.35:
         i = rng.choice(ads)
